@@ -537,6 +537,12 @@ func newSlim(keys []string, bytesValues [][]byte, opt *Opt) (*Slim, error) {
 			panic("wordStart smaller than o.fromKeyBit")
 		}
 
+		// Without InnerPrefix only the length of a prefix is stored, as a 16-bit count of 4-bit words.
+		if !*opt.InnerPrefix && (wordStart-o.fromKeyBit)>>2 > 0xffff {
+			return nil, errors.Wrapf(ErrKeyTooLong,
+				"keys[%d:%d] share %d bits from the %d-th bit", s, e, wordStart-o.fromKeyBit, o.fromKeyBit)
+		}
+
 		ks := make([]string, 0)
 		for i := s; i < e; i++ {
 			if tokeep[i] {
